@@ -42,6 +42,48 @@ TAIL = ["90 B=B+100:END", "100 C=C+1:RETURN", "110 C=C+10:RETURN"]
 OPTS = [{"filter_unused_linenum": f, "initialize_vars": i} for f in (False, True) for i in (False, True)]
 
 
+ARMS = ["90", "GOTO 90", "GOSUB 100", "B=1", "B=1:C=C+2", "GOSUB 100:B=5", "B=7:GOTO 90", "FOR K=1 TO 2:C=C+K:NEXT K", "IF A=1 THEN B=2", "ON A GOTO 90,30",
+        "GOSUB 100:GOSUB 110", "END", "STOP", "ON A GOSUB 100,110"]
+
+
+def if_shapes():
+    """every THEN arm x every ELSE arm (a line number, GOTO, GOSUB, statements, a nested IF, ON), and ELSE IF chains varied one arm at a time"""
+    out = []
+    for c in ("A=1", "A"):
+        for t in ARMS:
+            out.append("IF %s THEN %s" % (c, t))
+            if c == "A=1":
+                for e in ARMS:
+                    out.append("IF %s THEN %s ELSE %s" % (c, t, e))
+    for x in ARMS:
+        out.append("IF A=0 THEN %s ELSE IF A=1 THEN B=1 ELSE B=3" % x)
+        out.append("IF A=0 THEN B=9 ELSE IF A=1 THEN %s ELSE B=3" % x)
+        out.append("IF A=0 THEN B=9 ELSE IF A=1 THEN B=1 ELSE %s" % x)
+        out.append("IF A=0 THEN B=9 ELSE IF A=1 THEN %s" % x)
+        out.append("IF A=0 THEN B=9 ELSE IF A=1 THEN B=1 ELSE IF A=2 THEN %s ELSE B=4" % x)
+    return [["5 INPUT A", "10 " + s, "20 C=C+100", "30 B=B+1000"] for s in out]
+
+
+def on_shapes():
+    """ON .. GOTO / GOSUB with every target list up to three entries (repeats included), alone and followed by a statement"""
+    import itertools
+    out = []
+    for n in (1, 2, 3):
+        for l in itertools.product(("20", "30", "90"), repeat=n):
+            out.append(["5 INPUT A", "10 ON A GOTO " + ",".join(l) + ":B=5", "20 C=C+100", "30 B=B+1000"])
+        for l in itertools.product(("100", "110"), repeat=n):
+            out.append(["5 INPUT A", "10 ON A GOSUB " + ",".join(l) + ":B=5", "20 C=C+100", "30 B=B+1000"])
+    return out
+
+
+LINE0 = [
+    ["0 B=B+1", "3 IF B<3 THEN 0", "5 INPUT A"],
+    ["0 B=B+1:IF B>1 THEN 90", "5 INPUT A", "10 IF A=1 THEN 0", "20 C=7"],
+    ["0 IF B=1 THEN C=C+1:RETURN", "2 B=1", "5 INPUT A", "10 GOSUB 0", "20 ON A GOSUB 0,0", "30 IF A=2 THEN GOSUB 0"],
+    ["0 B=B+1", "5 INPUT A", "10 IF B<2 THEN IF A=1 THEN 0 ELSE 90"],
+]
+
+
 def scripts():
     return [{"inp": [gen.text_bytes(a)], "dev": []} for a in ("0", "1", "2", "3")]
 
@@ -94,6 +136,13 @@ def main():
     for p in loops:
         lines = ["5 INPUT A"] + gen.render_program(LOOPS, p) + TAIL
         plan.append({"lines": lines, "opts": dict(OPTS[3] if len(plan) % 2 else OPTS[1]), "scripts": scripts()[:1], "fuel": 250})
+    shapes = if_shapes() + on_shapes()
+    rep.count("if_and_on_shapes", len(shapes))
+    for k, body in enumerate(shapes):
+        plan.append({"lines": body + TAIL, "opts": dict(OPTS[k % 4]), "scripts": scripts(), "fuel": 150})
+    for body in LINE0:
+        for o in OPTS:
+            plan.append({"lines": body + TAIL, "opts": dict(o), "scripts": scripts(), "fuel": 150})
     for p in progs:
         lines = ["5 INPUT A"] + gen.render_program(PALETTE, p) + TAIL
         key = "\n".join(lines)
